@@ -204,8 +204,12 @@ class ModelGen:
         name = self._name(node)
         # `extern Text $const std::string&$`: legal for parameters that are only ever passed in
         as_ref = bool(self.externs) and self.rng.random() < self.o.ref_externs
-        x = M.Extern([name], f'const ::vx::T{self.extern_counter}&' if as_ref
-                     else f'::vx::T{self.extern_counter}')
+        data = f'const ::vx::T{self.extern_counter}&' if as_ref else f'::vx::T{self.extern_counter}'
+        if self.rng.random() < 0.2:
+            # `extern T $ unsigned long $;` - white space inside the dollars is part of the data
+            data = self.rng.choice([' ', '  ', '\t', '\n', '\n    ']) + data + \
+                self.rng.choice([' ', '', '\n', '  '])
+        x = M.Extern([name], data)
         self.extern_counter += 1
         self._place(node, x)
         ent = (node.fqn + [name], x)
@@ -307,7 +311,7 @@ class ModelGen:
                 ref = self._ref(fqn, xt, 'externs')
                 if ref is None:
                     continue
-                fdir = 'in' if direction == 'out' or _x.data.endswith('&') else \
+                fdir = 'in' if direction == 'out' or _x.data.strip().endswith('&') else \
                     rng.choice(['in', 'out', 'inout'])
                 out.append(M.Formal(fresh(rng, ftaken, rng.choice(['single', 'snake', 'digit'])),
                                     ref, fdir))
@@ -323,7 +327,7 @@ class ModelGen:
                 if not self.externs:
                     break
                 xt, _x = rng.choice([e for e in self.externs
-                                     if fdir == 'in' or not e[1].data.endswith('&')])
+                                     if fdir == 'in' or not e[1].data.strip().endswith('&')])
                 ref = self._ref(fqn, xt, 'externs')
                 if ref is not None:
                     out.append(M.Formal(fresh(rng, ftaken, rng.choice(['single', 'snake', 'digit'])),
@@ -400,7 +404,7 @@ class ModelGen:
                 ref = self._ref(fqn, xt, 'externs')
                 if ref is None:
                     continue
-                fdir = 'in' if direction == 'out' or _x.data.endswith('&') else \
+                fdir = 'in' if direction == 'out' or _x.data.strip().endswith('&') else \
                     rng.choice(['in', 'out', 'inout'])
                 formals.append(M.Formal(fresh(rng, ftaken, rng.choice(
                     ['single', 'snake', 'digit', 'camel', 'under'])), ref, fdir))
@@ -474,6 +478,51 @@ class ModelGen:
         if kind != 'foreign':
             self.components.append(ent)
         return ent
+
+    def add_twins(self, ent) -> bool:
+        """A name relation: two namespaces that are not nested in each other declare an extern
+        of the same simple name (different C++ types), an interface in each refers to its own
+        by that simple name (in an in-event and in an out-event), and the component `ent` gets
+        a provides port of the one and a requires port of the other.  False if the skeleton
+        has no two such namespaces."""
+        rng = self.rng
+        fqn, comp, cnode = ent
+        nodes = [n for n in self.nodes if n.fqn]
+        pairs = [(a, b) for a in nodes for b in nodes if a is not b
+                 and a.fqn != b.fqn[:len(a.fqn)] and b.fqn != a.fqn[:len(b.fqn)]]
+        if not pairs:
+            return False
+        first, second = rng.choice(pairs)
+        used = {f[-1] for _k, f, _o in self.decls()}
+        xname = fresh(rng, used, 'camel')
+        made = []
+        for node in (first, second):
+            if xname in node.taken:
+                return False
+            node.taken.add(xname)
+            ext = M.Extern([xname], f'::vx::T{self.extern_counter}')
+            self.extern_counter += 1
+            self._place(node, ext)
+            self.externs.append((node.fqn + [xname], ext))
+            ient = self.add_interface(node)
+            ifqn, itf, _n = ient
+            taken = {t.name[0] for t in itf.types if not isinstance(t, M.Unknown)}
+            target = '.'.join(node.fqn + [xname])
+            itf.events.append(M.Event(fresh(rng, taken, 'camel'), 'in', M.Ref(['void']),
+                                      [M.Formal('qz_a', M.Ref([xname], target), 'in')]))
+            itf.events.append(M.Event(fresh(rng, taken, 'camel'), 'out', M.Ref(['void']),
+                                      [M.Formal('qz_b', M.Ref([xname], target), 'in')]))
+            made.append(ient)
+        ptaken = {p.name[0].upper() + p.name[1:] for p in comp.ports} | \
+            {p.name[0].lower() + p.name[1:] for p in comp.ports} | \
+            {fqn[-1][0].upper() + fqn[-1][1:], fqn[-1][0].lower() + fqn[-1][1:]}
+        for (ifqn, _itf, _n), direction in zip(made, ('provides', 'requires')):
+            ref = self._ref(cnode.fqn, ifqn, 'interfaces')
+            if ref is None:
+                return False
+            pname = fresh(rng, ptaken, 'snake', casefold_first=True)
+            comp.ports.append(M.Port(pname, ref, direction))
+        return True
 
     def add_noise(self):
         rng = self.rng
